@@ -75,7 +75,7 @@ def completeField (o : Oracle) (fi : FInfo) (sh : Shape) (p : Path) : Option Out
   | (.panic m, e) => (failed sh.nn, e.append (eff [⟨p, "recovered: " ++ m⟩] [] 1))
   | (.block, e) => if sh.nn then (none, e.append (eff [⟨p, mustNotBeNull⟩])) else (some .null, e)
   | (.reached, e) =>
-    match o.res (pathStr p) with
+    match o.res p with
     | .missing => (failed sh.nn, e.append (eff [] [] 0 [pathStr p]))
     | .err m => (failed sh.nn, e.append (eff [⟨p, m⟩] [(pathStr p, "resolver")]))
     | .panic m => (failed sh.nn, e.append (eff [⟨p, "recovered: " ++ m⟩] [(pathStr p, "resolver")] 1))
